@@ -30,6 +30,8 @@ CLAIMED = {
          'the Python handler structure (exception in an except-handler is not caught by a sibling bare except) is encoded in the model and checked by correspondence', '5 C16'),
  'C18': ('Klepto.C18: lookup is pure and returns the resident value or KeyError; lookups invisible to later behaviour; key is the slot of the call (thin: one key function in the model); ' + W + ' incl. f.key()/f.lookup() interleavings invisible to the model',
          'the 36 duplicated key sites are compared behaviourally (f.key vs. key stored by the call), not proved equal', '5 C18'),
+ 'C19': ('Klepto.C19: validate (model of the code) succeeds exactly when CPython binding (bind, the specification) succeeds, for every plain signature without keyword-only parameters (any params, defaults, *args, **kw) and every call; validate has no access to the function; ' + KS + '; isvalid/validate verdicts vs. really binding the underlying function, and a call counter inside every generated function',
+         'outside the proved fragment the code disagrees with the specification: keyword-only parameters (F17a), partials fixing defaulted parameters positionally (F17b), partials over bound methods (F30) - listed findings with Lean counter-examples', '5 C19'),
  'C20': ('Klepto.C20 (thin, by construction of a value-semantic model): lock-step = determinism of step, independence and shared-store statements on a two-wrapper model; decided mainly by ' + CL,
          'dill fidelity is a runtime fact checked only by the suite; sqlite-backed caches cannot be pickled at all (outside "picklable backends"); raw keymaps with ignore/sentinel (identity-compared NULL objects, F24) are not generated yet', '5 C20'),
 }
